@@ -22,6 +22,25 @@ reproduce the complete state table after every time step from the configuration 
               `sex` column through its own population view). Weights are sixteenths: every division the framework does
               (by 1, or by a power-of-two total where the generator allows no null transition) is exact.
 
+OPT-IN extensions (absent / None = today's behaviour exactly):
+
+* `cfg["age"] = {"bits": b}`  WPop creates an int64 column `age` = floor(d * 2**b) of the SAME positional CRN draw d as `key`.
+* `cfg["pipe"]`               WMort registers the value producer `wmort.p` whose source is a REAL lookup table built with
+                              `builder.lookup.build_table` (key columns among sex / wstate, optionally the parameter column
+                              `age` with integer bin edges, one value column p = n / den, den a power of two); the probability
+                              handed to `filter_for_probability` is the pipeline's value. mode 0: replace_combiner, no
+                              post-processor, source = the LookupTable object itself (src 0) or a bound method calling it
+                              (src 1); mode 1: list_combiner + union_post_processor, source = [table(index)].
+                              `cfg["pipe"]["mods"][k]` is the modifier the component `WMod(k)` (component id 4 + k in
+                              `cfg["order"]`) registers: kind 0 value * w[sex]/den, 1 value + w[sex]/den, 2 w[sex]/den
+                              (replace-style); in mode 1 every modifier contributes the probability w[sex]/den.
+* `cfg["obs"]`                WObserver (component id 3, an `Observer`) registers stratifications (by sex, by disease state, by
+                              a mapper, by age bin) and adding observations (count / sum of an integer column; pop_filter;
+                              `when` = any of the four phases; `to_observe` every m-th step). `sim.get_results()` is read
+                              after every step.
+
+Everything stays exact: sixteenths / small dyadic factors, products of at most four of them.
+
 case (JSON): see `vcheck/props/whole.py::Whole.generate`.
 """
 from __future__ import annotations
@@ -34,12 +53,18 @@ import numpy as np  # noqa: E402
 import pandas as pd  # noqa: E402
 from vivarium import Component  # noqa: E402
 from vivarium.framework.engine import SimulationContext  # noqa: E402
+from vivarium.framework.results.observer import Observer  # noqa: E402
 from vivarium.framework.state_machine import Machine, State, Transition  # noqa: E402
+from vivarium.framework.values import list_combiner, replace_combiner, union_post_processor  # noqa: E402
 
 PHASES = ["time_step__prepare", "time_step", "time_step__cleanup", "collect_metrics"]
 SEXES = ["m", "f"]
 STATE_NAMES = ["s0", "s1", "s2", "s3"]
 KEY_COLUMN_NAMES = ["entrance", "key"]
+PIPE_NAME = "wmort.p"
+PIPE_KEY_NAMES = ["sex", "wstate"]
+FILTERS = ["", "tracked == True", 'wstate == "s1"', 'sex == "f" and tracked == True', "tracked == False"]
+FILTER_COLUMNS = [[], ["tracked"], ["wstate"], ["sex", "tracked"], ["tracked"]]
 
 
 def step_number(cfg, clock):
@@ -57,7 +82,7 @@ class WPop(Component):
 
     @property
     def columns_created(self):
-        return ["key", "entrance", "sex"]
+        return ["key", "entrance", "sex"] + (["age"] if self.cfg.get("age") else [])
 
     def setup(self, builder):
         self.clock = builder.time.clock()
@@ -83,6 +108,11 @@ class WPop(Component):
         else:
             key = pd.Series([], dtype=float if cfg["keyFloat"] else "int64", index=idx)
         df = pd.DataFrame({"key": key, "entrance": pd.Series(pop_data.creation_time, index=idx, dtype="int64")}, index=idx)
+        if cfg.get("age"):
+            if n:
+                df["age"] = np.floor(d * float(2 ** cfg["age"]["bits"])).astype("int64")
+            else:
+                df["age"] = pd.Series([], dtype="int64", index=idx)
         if self.keys:
             self.register(df[self.keys])
         if n:
@@ -130,19 +160,61 @@ class WMort(Component):
 
     @property
     def columns_required(self):
-        return ["tracked", "sex", "wstate"]
+        return ["tracked", "sex", "wstate"] + (["age"] if self.cfg.get("age") else [])
 
     def setup(self, builder):
         self.rs = builder.randomness.get_stream("wmort")
         builder.event.register_listener(PHASES[self.cfg["mortPhase"]], self.act, priority=self.cfg["mortPrio"])
+        self.pipeline = None
+        self.plog = None
+        pipe = self.cfg.get("pipe")
+        if pipe:
+            keys = [PIPE_KEY_NAMES[k] for k in pipe["keys"]]
+            edges = pipe.get("edges")
+            recs = []
+            for row in pipe["rows"]:
+                rec = {}
+                for k, cell in zip(pipe["keys"], row):
+                    rec[PIPE_KEY_NAMES[k]] = SEXES[cell] if k == 0 else STATE_NAMES[cell]
+                if edges:
+                    b = row[len(keys)]
+                    rec["age_start"], rec["age_end"] = edges[b], edges[b + 1]
+                rec["p"] = row[-1] / float(pipe["den"])
+                recs.append(rec)
+            data = pd.DataFrame.from_records(recs, columns=keys + (["age_start", "age_end"] if edges else []) + ["p"])
+            self.table = builder.lookup.build_table(data, key_columns=keys, parameter_columns=["age"] if edges else [],
+                                                    value_columns=["p"])
+            req = keys + (["age"] if edges else [])
+            if pipe["mode"] == 1:
+                self.pipeline = builder.value.register_value_producer(
+                    PIPE_NAME, source=self._src_list, requires_columns=req, preferred_combiner=list_combiner,
+                    preferred_post_processor=union_post_processor)
+            else:
+                self.pipeline = builder.value.register_value_producer(
+                    PIPE_NAME, source=self.table if pipe["src"] == 0 else self._src, requires_columns=req,
+                    preferred_combiner=replace_combiner)
+
+    def _src(self, index):
+        return self.table(index)
+
+    def _src_list(self, index):
+        return [self.table(index)]
 
     def on_initialize_simulants(self, pop_data):
         self.population_view.update(pd.Series(np.nan, index=pop_data.index, name="exit", dtype=float))
 
     def act(self, event):
         pop = self.population_view.get(event.index, query="tracked == True")
-        table = self.cfg["mortP"]
-        p = np.array([table[SEXES.index(s)][STATE_NAMES.index(w)] / 16.0 for s, w in zip(pop["sex"], pop["wstate"])], dtype=float)
+        if self.pipeline is not None:
+            if len(pop) == 0:
+                return
+            p = np.asarray(self.pipeline(pop.index), dtype=float)
+            ages = pop["age"] if "age" in pop.columns else [0] * len(pop)
+            self.plog = [[int(l), SEXES.index(s), STATE_NAMES.index(w), int(a)] + list(float(x).as_integer_ratio())
+                         for l, s, w, a, x in zip(pop.index, pop["sex"], pop["wstate"], ages, p)]
+        else:
+            table = self.cfg["mortP"]
+            p = np.array([table[SEXES.index(s)][STATE_NAMES.index(w)] / 16.0 for s, w in zip(pop["sex"], pop["wstate"])], dtype=float)
         dead = self.rs.filter_for_probability(pop.index, p)
         self.population_view.update(pd.DataFrame({"tracked": False, "exit": float(event.time)}, index=dead))
 
@@ -217,7 +289,116 @@ class WDisease(Component):
         self.machine.transition(event.index, event.time)
 
 
-COMPONENTS = {0: WPop, 1: WMort, 2: WDisease}
+class WMod(Component):
+    """one value modifier of the pipeline `wmort.p`, reading `sex` through its own view"""
+    K = 0
+
+    def __init__(self, cfg):
+        super().__init__()
+        self.cfg = cfg
+
+    @property
+    def name(self):
+        return f"wmod{self.K}"
+
+    @property
+    def columns_required(self):
+        return ["sex"]
+
+    def setup(self, builder):
+        pipe = self.cfg.get("pipe") or {}
+        mods = pipe.get("mods") or []
+        self.spec = mods[self.K] if self.K < len(mods) else {"kind": 0, "den": 1, "w": [1, 1]}
+        self.union = pipe.get("mode") == 1
+        builder.value.register_value_modifier(PIPE_NAME, self.contribute if self.union else self.modify, requires_columns=["sex"])
+
+    def _w(self, index):
+        sex = self.population_view.get(index)["sex"]
+        sp = self.spec
+        return pd.Series([sp["w"][SEXES.index(s)] / float(sp["den"]) for s in sex], index=index, dtype=float)
+
+    def modify(self, index, value):
+        w = self._w(index)
+        kind = self.spec["kind"]
+        if kind == 0:
+            return value * w
+        if kind == 1:
+            return value + w
+        return w
+
+    def contribute(self, index):
+        return self._w(index)
+
+
+class WMod0(WMod):
+    K = 0
+
+
+class WMod1(WMod):
+    K = 1
+
+
+class WMod2(WMod):
+    K = 2
+
+
+def strat_categories(cfg, sp):
+    return list(sp["cats"])
+
+
+def _mapper(cfg, kind):
+    if kind == 2:
+        return lambda df: df["sex"] + "_" + df["wstate"]
+    if kind == 3:
+        return lambda df: df["tracked"].map({True: "yes", False: "no"})
+    raise ValueError(kind)
+
+
+class WObserver(Observer):
+    """registers the configured stratifications and adding observations (`cfg["obs"]`)"""
+
+    def __init__(self, cfg):
+        super().__init__()
+        self.cfg = cfg
+
+    @property
+    def name(self):
+        return "w_observer"
+
+    def register_observations(self, builder):
+        ob = self.cfg.get("obs") or {}
+        start, step = self.cfg["start"], self.cfg["step"]
+        for sp in ob.get("strats", []):
+            kind = sp["kind"]
+            kw = dict(excluded_categories=list(sp["excl"]))
+            if kind == 0:
+                builder.results.register_stratification(sp["name"], list(sp["cats"]), requires_columns=["sex"], **kw)
+            elif kind == 1:
+                builder.results.register_stratification(sp["name"], list(sp["cats"]), requires_columns=["wstate"], **kw)
+            elif kind == 2:
+                builder.results.register_stratification(sp["name"], list(sp["cats"]), mapper=_mapper(self.cfg, 2), is_vectorized=True,
+                                                        requires_columns=["sex", "wstate"], **kw)
+            elif kind == 3:
+                builder.results.register_stratification(sp["name"], list(sp["cats"]), mapper=_mapper(self.cfg, 3), is_vectorized=True,
+                                                        requires_columns=["tracked"], **kw)
+            else:
+                builder.results.register_binned_stratification("age", sp["name"], [int(e) for e in sp["edges"]], list(sp["cats"]), **kw)
+        for o in ob.get("observations", []):
+            cols = set(FILTER_COLUMNS[o["filter"]])
+            kw = dict(name=o["name"], pop_filter=FILTERS[o["filter"]], when=PHASES[o["when"]],
+                      additional_stratifications=list(o["add"]), excluded_stratifications=list(o["exc"]))
+            if o["agg"] == 1:
+                kw.update(aggregator_sources=["entrance"], aggregator=lambda df: df["entrance"].sum())
+                cols.add("entrance")
+            elif o["agg"] == 2:
+                kw.update(aggregator_sources=["age"], aggregator=lambda df: df["age"].sum())
+                cols.add("age")
+            if o["mod"] > 1:
+                kw["to_observe"] = lambda event, m=o["mod"]: ((int(event.time) - start) // step) % m == 0
+            builder.results.register_adding_observation(requires_columns=sorted(cols), **kw)
+
+
+COMPONENTS = {0: WPop, 1: WMort, 2: WDisease, 3: WObserver, 4: WMod0, 5: WMod1, 6: WMod2}
 
 
 def build(cfg):
@@ -228,8 +409,11 @@ def configuration(cfg):
     rnd = {"map_size": cfg["mapSize"], "random_seed": cfg["seed"], "key_columns": [KEY_COLUMN_NAMES[k] for k in cfg["keyCols"]]}
     if cfg.get("addSeed") is not None:
         rnd["additional_seed"] = cfg["addSeed"]
-    return {"population": {"population_size": cfg["pop"]}, "randomness": rnd,
-            "time": {"start": cfg["start"], "end": cfg["stop"], "step_size": cfg["step"]}}
+    out = {"population": {"population_size": cfg["pop"]}, "randomness": rnd,
+           "time": {"start": cfg["start"], "end": cfg["stop"], "step_size": cfg["step"]}}
+    if cfg.get("obs") and cfg["obs"].get("defaults"):
+        out["stratification"] = {"default": list(cfg["obs"]["defaults"])}
+    return out
 
 
 def plugins():
@@ -243,8 +427,9 @@ def seed_string(cfg):
 
 
 def canon_table(cfg, df):
-    """the canonical table: one row [label, tracked, key numerator, entrance, sex, state, exit] per simulant,
-    integers only (key as floor(d * 2**B); exit None = NaN); None when the column holds something inexpressible"""
+    """the canonical table: one row [label, tracked, key numerator, entrance, sex, state, exit] per simulant
+    (+ `age` as an eighth entry when `cfg["age"]` is set), integers only (key as floor(d * 2**B); exit None = NaN);
+    None when the column holds something inexpressible"""
     B = cfg["keyBits"]
     rows = []
     for label, r in df.iterrows():
@@ -260,7 +445,54 @@ def canon_table(cfg, df):
                      SEXES.index(r["sex"]) if r["sex"] in SEXES else None,
                      STATE_NAMES.index(r["wstate"]) if r["wstate"] in STATE_NAMES else None,
                      None if pd.isna(ex) else (int(ex) if float(ex) == int(ex) else ["inexact", float(ex).hex()])])
+        if cfg.get("age"):
+            a = r["age"] if "age" in df.columns else None
+            rows[-1].append(None if a is None or pd.isna(a) else int(a))
     return rows
+
+
+def obs_strat_names(cfg, o):
+    """`ResultsManager._get_stratifications`: sorted(set(default + additional) - set(excluded))"""
+    ob = cfg.get("obs") or {}
+    return sorted((set(ob.get("defaults", [])) | set(o["add"])) - set(o["exc"]))
+
+
+def canon_results(cfg, sim):
+    """`sim.get_results()` -> {observation name: [[category per stratification (sorted names)..., value numerator,
+    value denominator], ...]} in the product order of the non-excluded categories as registered; problems as strings"""
+    ob = cfg.get("obs")
+    if not ob or 3 not in cfg["order"]:
+        return None
+    import itertools
+    res = sim.get_results()
+    out = {}
+    by_name = {sp["name"]: sp for sp in ob.get("strats", [])}
+    for o in ob.get("observations", []):
+        df = res.get(o["name"])
+        if df is None:
+            out[o["name"]] = "missing"
+            continue
+        names = obs_strat_names(cfg, o)
+        levels = [[c for c in by_name[n]["cats"] if c not in by_name[n]["excl"]] for n in names]
+        cols = [str(c) for c in df.columns]
+        want_cols = set(names or ["stratification"]) | {"value"}
+        if set(cols) != want_cols or len(cols) != len(want_cols):
+            out[o["name"]] = f"columns {sorted(cols)}"
+            continue
+        tab = {}
+        bad = None
+        for rec in df.to_dict("records"):
+            k = tuple(str(rec[n]) for n in names) if names else ("all",)
+            if k in tab:
+                bad = f"duplicate row {k}"
+            v = rec["value"]
+            tab[k] = None if pd.isna(v) else list(float(v).as_integer_ratio())
+        keys = list(itertools.product(*levels)) if names else [("all",)]
+        if bad or set(tab) != set(keys):
+            out[o["name"]] = bad or f"rows {sorted(tab)}"
+            continue
+        out[o["name"]] = [list(k) + (tab[k] if tab[k] is not None else [None, None]) for k in keys]
+    return out
 
 
 def classify(e):
@@ -271,12 +503,19 @@ def classify(e):
         return "lookup"
     if isinstance(e, (ValueError, FloatingPointError)):
         return "value"
+    if isinstance(e, KeyError):
+        return "key"
+    if isinstance(e, NotImplementedError):
+        return "unsupported"
     return "other:" + type(e).__name__
 
 
 def make_context(cfg):
     SimulationContext._clear_context_cache()
-    return SimulationContext(None, build(cfg), configuration(cfg), plugins(), logging_verbosity=0)
+    comps = build(cfg)
+    sim = SimulationContext(None, comps, configuration(cfg), plugins(), logging_verbosity=0)
+    sim._wk_components = comps          # the kit's own handle on its probe components (read-only use: logs)
+    return sim
 
 
 def positions(sim, labels):
@@ -338,8 +577,21 @@ def run(cfg, mode="step"):
     Returns {"init": table | None, "steps": [table...], "clocks": [...], "error": None | {"at": k, "class": c, "msg": m},
              "positions_by_stage": [...], "positions": after the last completed stage, "size": block size, "collisions": n}"""
     out = {"init": None, "steps": [], "clocks": [], "error": None, "positions": None, "positions_by_stage": [], "size": None,
-           "mode": mode, "collisions": None, "first_hashes": None}
+           "mode": mode, "collisions": None, "first_hashes": None, "results": [], "pvals": []}
     sim = make_context(cfg)
+
+    def record():
+        """after a completed stage: the running results and the last value the mortality pipeline returned"""
+        try:
+            out["results"].append(canon_results(cfg, sim))
+        except Exception as e:  # noqa: BLE001
+            out["results"].append({"_error": f"{type(e).__name__}: {e}"[:200]})
+        try:
+            m = [c for c in getattr(sim, "_wk_components", []) if isinstance(c, WMort)]
+            out["pvals"].append(getattr(m[0], "plog", None) if m else None)
+        except Exception as e:  # noqa: BLE001
+            out["pvals"].append(["error", f"{type(e).__name__}: {e}"[:200]])
+
     try:
         sim.setup()
     except Exception as e:  # noqa: BLE001
@@ -355,6 +607,7 @@ def run(cfg, mode="step"):
     out["init"] = canon_table(cfg, pop)
     out["clocks"].append(int(sim.current_time))
     out["positions_by_stage"].append(positions(sim, list(pop.index)))
+    record()
     if mode == "init":
         return out
     n = cfg["nSteps"]
@@ -368,6 +621,7 @@ def run(cfg, mode="step"):
         out["steps"].append(canon_table(cfg, pop))
         out["clocks"].append(int(sim.current_time))
         out["positions_by_stage"].append(positions(sim, list(pop.index)))
+        record()
     else:
         for k in range(n):
             try:
@@ -379,6 +633,7 @@ def run(cfg, mode="step"):
             out["steps"].append(canon_table(cfg, pop))
             out["clocks"].append(int(sim.current_time))
             out["positions_by_stage"].append(positions(sim, list(pop.index)))
+            record()
     if out["error"] is None:
         out["positions"] = out["positions_by_stage"][-1]
         out["collisions"] = collisions(sim)
